@@ -12,8 +12,8 @@ def main(tier, replay=None):
     res.rule = ("real qmail-local (-n and real mode, real fork/exec of a /bin/sh stand-in, real maildir child, real qmail-queue for forwards) in a "
                 "virtual home.  select: all 256 subsets of 8 .qmail files x 16 extensions (case incl. the boundary letter Z, dots, slashes, trailing dash, 'default'); perm: "
                 "6 file modes x 5 home modes x 5 bodies x {-n, real} x {.qmail, .qmail-list}; instr: every instruction list of length 1..3 (thorough: 4) over "
-                "14 line kinds (comment, blank, programs exiting 0/99/100/111/64/1, mbox, maildir, two forward spellings, +list, trailing "
-                "blanks) x {-n, real, real with x bit}; owner: -owner / -owner-default x 3 senders; hdr: hostile senders/extensions x loop "
+                "16 line kinds (comment, blank, programs exiting 0/99/100/111/64/1, mbox, maildir, two forward spellings, +list, program/maildir/mbox lines with trailing "
+                "blanks) x {file ends with a newline, does not} x {-n, real, real with x bit}; owner: -owner / -owner-default x 3 senders; hdr: hostile senders/extensions x loop "
                 "variants x 3 targets.  Each case is compared with a reference interpreter written from dot-qmail(5)/qmail-command(8): selected "
                 "file, ordered actions, forward last and only on success, exit code class, header lines of every delivered copy")
     res.assumptions = ["virtual kernel (appendix A)", "conf-patrn is read from the tree (002)", "the clock advances one second whenever a process exits (maildir names of two deliveries by a re-used pid would otherwise collide, which qmail-local answers with a deferral)"]
